@@ -89,28 +89,45 @@ mod verif_c15_descriptors {
     // ====================================================== TSS descriptor
     // For ALL 2^64 pointer values; the pointer is never dereferenced.
 
-    #[kani::ensures(|r: &(u64, u64, bool)| ob("C15.Descriptor_tss_segment_unchecked.is_system_descriptor", r.2))]
-    #[kani::ensures(|r: &(u64, u64, bool)| ob("C15.Descriptor_tss_segment_unchecked.base_is_full_address", sys_base(r.0, r.1) == p))]
-    #[kani::ensures(|r: &(u64, u64, bool)| ob("C15.Descriptor_tss_segment_unchecked.limit_0x67", dec(r.0).limit == 0x67))]
-    #[kani::ensures(|r: &(u64, u64, bool)| ob("C15.Descriptor_tss_segment_unchecked.type_available_tss64", dec(r.0).typ == 0x9 && dec(r.0).s == 0))]
-    #[kani::ensures(|r: &(u64, u64, bool)| ob("C15.Descriptor_tss_segment_unchecked.present_ring0", dec(r.0).p == 1 && dec(r.0).dpl == 0))]
-    #[kani::ensures(|r: &(u64, u64, bool)| ob("C15.Descriptor_tss_segment_unchecked.reserved_zero",
-        dec(r.0).avl == 0 && dec(r.0).l == 0 && dec(r.0).db == 0 && dec(r.0).g == 0 && (r.1 >> 32) == 0))]
-    fn w_tss_unchecked(p: u64) -> (u64, u64, bool) {
-        words(unsafe { Descriptor::tss_segment_unchecked(p as *const TaskStateSegment) })
-    }
-
+    // Plain proof, not a contract: the contract instrumentation is ~1000x slower on
+    // code that goes through bit_field's range API (measured here: 283 s as
+    // proof_for_contract, < 1 s plain; same effect as PLAIN-1 in lib/C19_NOTES.md).
     //@ obligation C15 C15.Descriptor_tss_segment_unchecked.is_system_descriptor
     //@ obligation C15 C15.Descriptor_tss_segment_unchecked.base_is_full_address
     //@ obligation C15 C15.Descriptor_tss_segment_unchecked.limit_0x67
     //@ obligation C15 C15.Descriptor_tss_segment_unchecked.type_available_tss64
     //@ obligation C15 C15.Descriptor_tss_segment_unchecked.present_ring0
     //@ obligation C15 C15.Descriptor_tss_segment_unchecked.reserved_zero
-    #[kani::proof_for_contract(w_tss_unchecked)]
+    #[kani::proof]
     fn c15_tss_descriptor_unchecked_decodes() {
         let p: u64 = kani::any();
-        w_tss_unchecked(p);
         kani::cover!(true, "c15_tss_descriptor_unchecked_decodes: reachable");
+        let r = words(unsafe { Descriptor::tss_segment_unchecked(p as *const TaskStateSegment) });
+        let d = dec(r.0);
+        assert!(
+            r.2,
+            "C15.Descriptor_tss_segment_unchecked.is_system_descriptor: two-slot SystemSegment"
+        );
+        assert!(
+            sys_base(r.0, r.1) == p,
+            "C15.Descriptor_tss_segment_unchecked.base_is_full_address: base 23:0, 31:24, 63:32 reassemble to p"
+        );
+        assert!(
+            d.limit == 0x67,
+            "C15.Descriptor_tss_segment_unchecked.limit_0x67: limit 15:0 | 19:16 == 0x67"
+        );
+        assert!(
+            d.typ == 0x9 && d.s == 0,
+            "C15.Descriptor_tss_segment_unchecked.type_available_tss64: type == 0b1001, S == 0"
+        );
+        assert!(
+            d.p == 1 && d.dpl == 0,
+            "C15.Descriptor_tss_segment_unchecked.present_ring0: P == 1, DPL == 0"
+        );
+        assert!(
+            d.avl == 0 && d.l == 0 && d.db == 0 && d.g == 0 && (r.1 >> 32) == 0,
+            "C15.Descriptor_tss_segment_unchecked.reserved_zero: AVL, bits 53-54, G and the upper dword of the high word are 0"
+        );
     }
 
     static C15_TSS: TaskStateSegment = TaskStateSegment::new();
